@@ -97,6 +97,14 @@ Theorem C01_three_walks : forall (A : Type) (t : tree (A:=A)),
 Proof. exact (fun A t => conj (preorder_perm t) (postorder_perm t)). Qed.
 Print Assumptions C01_three_walks.
 
+(* with distinct values the pre-order and in-order walks determine the tree (up to cached heights), hence
+   the post-order walk: this is the reconstruction the harness uses to check that the three Slice*/Walk*
+   outputs of the real code are traversals of ONE tree *)
+Theorem C01_walks_determine_tree : forall (A : Type) (t t' : tree (A:=A)), NoDup (inorder t) ->
+  preorder t = preorder t' -> inorder t = inorder t' -> skel t = skel t' /\ postorder t = postorder t'.
+Proof. exact @walks_determine_tree. Qed.
+Print Assumptions C01_walks_determine_tree.
+
 (* ---- no nil dereference: add / popLeftMost / remove are total on trees whose cached heights are >= 0,
         and keep that ---- *)
 Theorem C01_total : forall (A : Type) (eqb : A -> A -> bool) (cmp : A -> A -> Z) (v : A) (t : tree),
@@ -208,6 +216,29 @@ Print Assumptions C01_frame.
 Theorem C01_int_comparator_ok : TotalOrderEq Z.eqb zcompare.
 Proof. exact zcompare_TotalOrderEq. Qed.
 Print Assumptions C01_int_comparator_ok.
+
+(* ... and a lexicographic comparator on a two-field struct with the derived == (harness type Pair) *)
+Theorem C01_pair_comparator_ok : TotalOrderEq paireqb paircompare.
+Proof. exact paircompare_TotalOrderEq. Qed.
+Print Assumptions C01_pair_comparator_ok.
+
+(* per-function statements on a concrete search tree with a duplicate key in the LEFT subtree:
+   [3,3,5,8] as 5(3(3,-),8). add 3 goes right of both 3s; remove 5 (one child each side -> popLeftMost);
+   remove 4 is refused and returns the same tree *)
+Example C01_example_functions :
+  let t := N (N (N E 3 0 E) 3 1 E) 5 2 (N E 8 0 E) in
+  bst zcompare t /\ hnn t /\ inorder t = [3; 3; 5; 8] /\
+  (exists t', add zcompare 3 t = Ok t' /\ inorder t' = [3; 3; 3; 5; 8]) /\
+  (exists t', remove Z.eqb zcompare 5 t = Ok (t', true) /\ inorder t' = [3; 3; 8]) /\
+  remove Z.eqb zcompare 4 t = Ok (t, false) /\
+  contains Z.eqb zcompare 3 t = true /\ contains Z.eqb zcompare 4 t = false /\
+  popLeftMost t = Ok (N (N E 3 0 E) 5 1 (N E 8 0 E), 3).
+Proof.
+  cbv zeta. split; [cbn; repeat split; repeat constructor; unfold le, zcompare; cbn; lia|].
+  split; [cbn; lia|]. split; [reflexivity|].
+  split; [eexists; split; vm_compute; reflexivity|]. split; [eexists; split; vm_compute; reflexivity|].
+  vm_compute. repeat split.
+Qed.
 
 (* 24 mixed ops on two handles: duplicate Add, Clone of 7 elements, Remove of the root (two
    children, goes through popLeftMost), Remove of an absent value, ops on the clone that the
